@@ -307,6 +307,33 @@ def translate_version(repo):
     return 'Definition src_version_order : list version := [%s].\n' % '; '.join(variants)
 
 
+VALID_SKELETON = [
+    r'let version = self\.state\.version as u8;',
+    r'let Some\(all_opcodes\) = PICKLE_OPCODES\.get\(&version\) else \{ return vec!\[\]; \};',
+    r'all_opcodes \.iter\(\) \.filter\(\|&&op\| self\.can_emit\(op\)\) \.copied\(\) \.collect\(\)',
+]
+CHOICE_SKELETON = [
+    r'if opcodes\.is_empty\(\) \{ return OpcodeKind::(\w+); \}',
+    r'let idx = source\.choose_index\(opcodes\.len\(\)\);',
+    r'opcodes\[idx\]',
+]
+
+
+def translate_choice(repo, rmap):
+    """get_valid_opcodes = the protocol's row, in its order, filtered by can_emit; weighted_choice = the opcode at a uniformly
+    drawn index (both recognised as a whole: every statement must be the modelled one)"""
+    src = open(os.path.join(repo, 'src', 'generator', 'validation.rs')).read()
+    skeleton('get_valid_opcodes', statements(strip_cfg(fn_body(src, 'get_valid_opcodes'))), VALID_SKELETON)
+    st = statements(strip_cfg(fn_body(src, 'weighted_choice')))
+    skeleton('weighted_choice', st, CHOICE_SKELETON)
+    fb = re.fullmatch(CHOICE_SKELETON[0], st[0]).group(1).lower()
+    if fb not in rmap:
+        raise TranslateError('unknown fallback opcode in weighted_choice')
+    return ('Definition src_get_valid (can_emit : opcode -> bool) (row : list opcode) : list opcode := filter can_emit row.\n'
+            'Definition src_weighted_choice (opcodes : list opcode) : M opcode :=\n'
+            '  match opcodes with\n  | [] => ret %s\n  | _ => mbind (m_choose_index (N.of_nat (length opcodes))) (fun idx => m_index opcodes idx)\n  end.\n' % rmap[fb])
+
+
 def translate_generate(repo, rmap):
     src = open(os.path.join(repo, 'src', 'generator', 'core.rs')).read()
     body = strip_cfg(fn_body(src, 'generate_internal'))
@@ -458,7 +485,7 @@ def main():
     repo, outdir = sys.argv[1], sys.argv[2]
     rmap = rust_to_cp(cpython_names())
     try:
-        text = HEADER + translate_version(repo) + '\n' + translate_generate(repo, rmap) + '\n' + translate_cleanup(repo, rmap)
+        text = HEADER + translate_version(repo) + '\n' + translate_generate(repo, rmap) + '\n' + translate_cleanup(repo, rmap) + '\n' + translate_choice(repo, rmap)
     except (TranslateError, ValueError, IndexError, KeyError) as e:
         # ValueError & co.: a `.index()` / lookup that found nothing - a source shape outside the subset, too
         print('TRANSLATE-ERROR SrcDrv.v: %s: %s' % (type(e).__name__, e))
